@@ -762,6 +762,12 @@ func pipeNontrivial(out *pipeOutcome, ref *pipeRef) bool {
 
 func init() {
 	worlds["C01"] = func(rc *RunCtx) {
+		if (rc.Index/2)%8 == 5 && rc.Mode != simrt.ModeFree {
+			// one run in eight: followed files (-f/-F) through batchers.TailFilesToChan - every line of the appended streams
+			// is delivered once, in order, with gap-free numbering (zz_c15b_test.go)
+			c15BatchWorld(rc)
+			return
+		}
 		if rc.Tape.WBool(1, 5) && rc.Mode != simrt.ModeFree {
 			cliFilterWorld(rc, "C01") // CLI-level variant: stderr summary, exit status, printed keys
 			return
@@ -782,6 +788,11 @@ func init() {
 		rc.Logf("read=%d matched=%d ignored=%d emitted=%d", out.ReadLines, out.MatchedLines, out.IgnoredLines, len(out.Matches))
 	}
 	worlds["C02"] = func(rc *RunCtx) {
+		if (rc.Index/2)%4 == 1 && rc.Mode != simrt.ModeFree {
+			// one run in four: followed files - source, line numbers and text of what TailFilesToChan hands to the workers
+			c15BatchWorld(rc)
+			return
+		}
 		if rc.Tape.WBool(1, 5) && rc.Mode != simrt.ModeFree {
 			cliFilterWorld(rc, "C02") // CLI-level variant: default filter output with colour codes stripped, -l prefixes
 			return
